@@ -619,8 +619,14 @@ def run(ctx):
            frozenset(l1)]                                                        # nothing to do
     apexes = [ROOT, (1, 1, 0), (2, 0, 0)]
     # (1) exhaustive
+    import concurrent.futures
+    pool = concurrent.futures.ThreadPoolExecutor(max_workers=2)
+    pending = []
     if q:
-        ctx.tlc("Conf", extra={"Conf.tla": conf_module("Conf", "WalkPar", fam[:5], [ROOT, (1, 1, 0)])}, cfg_text=CFG % dict(depth=2, nw=2, cap=4), timeout=900)
+        # two independent halves of the family, side by side with the replay and exploration below
+        for part in (fam[:3], fam[3:5]):
+            pending.append(pool.submit(lambda part=part: ctx.tlc("Conf", extra={"Conf.tla": conf_module("Conf", "WalkPar", part, [ROOT, (1, 1, 0)])},
+                                                                 cfg_text=CFG % dict(depth=2, nw=2, cap=4), timeout=900, workers=6)))
     else:
         allpat = [with_kids(list(s), 2) for r in range(5) for s in __import__("itertools").combinations(l1, r)] + fam[4:]
         ctx.tlc("Conf", extra={"Conf.tla": conf_module("Conf", "WalkPar", allpat, apexes, "one")}, cfg_text=CFG % dict(depth=2, nw=2, cap=4), timeout=3000)
@@ -660,5 +666,8 @@ def run(ctx):
         real_walk(ctx, 3, acc3, ROOT, 3)
         real_walk(ctx, 2, full2, (1, 1, 0), 5, generic=True)
         real_walk(ctx, 3, with_kids(l1, 3), ROOT, 4, generic=True)
+    for f in pending:
+        f.result()
+    pool.shutdown()
     ctx.assume("CPython's multiprocessing.Queue/Event/Process behave like the fake ones of lib/simmp.py; the real-process runs sample that")
     ctx.assume("the serial walk's conformance to the same Live/Ops definitions is the subject of C13 (spec/Reduce.tla)")
